@@ -1,13 +1,13 @@
-SPECIFICATION GSpec
+SPECIFICATION GSpecD
 CONSTANTS
   NMarkets = 5
   Conns <- GenConns
-  KeyOffs = {0, 2}
+  KeyOffs = {2}
   PRICE = {6}
   AMOUNT = {5}
   TIME = {1}
-  DupKinds = {0}
+  DupKinds = {1, 2}
   MaxBatch = 1
-  MaxLen = 2
+  MaxLen = 6
 INVARIANT Emit
 CHECK_DEADLOCK FALSE
